@@ -43,6 +43,9 @@ def run_property(chk, pid, module, theorems, n_quick, n_thorough, focus=None, ex
     # ---- correspondence (the disagreement search runs on every case; a failing proof widens nothing here:
     #      the generated population is already the widest we have) --------------------------------------
     cssmodel.compare(chk, cases, results, stream="css")
+    if pid in ("C08", "C09", "C17"):
+        # the specifications of the whole-sheet theorems against the implementation itself (sheets without an import sign)
+        cssmodel.compare_spec(chk, cases, results, limit=300 if quick else 3000)
     # ---- oracle --------------------------------------------------------------------------------------
     check = ORACLES[pid]
     nprob = 0
